@@ -1,4 +1,4 @@
-(* C12 driver.  argv[1] = cases, argv[2] = implementation output (needed: allocator answers are observations),
+(* C12 driver (composite ops ckrel:<i> = ck;rel and ck2:<i> = ck;ck issued back to back).  argv[1] = cases, argv[2] = implementation output (needed: allocator answers are observations),
    argv[3] = variant: repaired | d_async | d_reserve | defective.
    case:  <ipoe|pppoe> <n4> <n6> <kpd> op...      (PD pool has 2^kpd prefixes)
      new:<i>:<flags bac6|.>:<v4>:<v6>:<pd>:<lease4>:<age4|z>:<lease6>:<age6|z>     addr spec: - | a | s<k>
@@ -25,7 +25,7 @@ let rec dedup_keys seen = function
   | (k, v) :: r -> if List.mem (int_of_n k) seen then dedup_keys seen r else (k, v) :: dedup_keys (int_of_n k :: seen) r
 let sess_s proto (r : sess) =
   let fl = match proto with
-    | IPoE -> (if r.s_bound then "b" else "") ^ (if r.s_appr then "a" else "") ^ (if r.s_crea then "c" else "")
+    | IPoE -> (if r.s_bound then "b" else "") ^ (if r.s_rel4 then "r" else "") ^ (if r.s_appr then "a" else "") ^ (if r.s_crea then "c" else "")
               ^ (if r.s_v6b then "6" else "")
     | PPPoE -> (if r.s_bound then "b" else "") ^ (if int_of_n r.s_swif <> 0 then "c" else "") in
   let fl = if fl = "" then "." else fl in
@@ -66,10 +66,11 @@ let () =
                 | ["new"; x; y; z] -> (obs_of x, obs_of y, obs_of z)
                 | _ -> (None, None, None) in
               let tm s = if s = "z" then None else Some (z_of_int (- (int_of_string s))) in
-              Some (New ({ n_id = ni (int_of_string a.(1)); n_bound = has 'b' a.(2); n_appr = has 'a' a.(2);
+              Some (New ({ n_id = ni (int_of_string a.(1)); n_bound = has 'b' a.(2); n_rel4 = has 'r' a.(2); n_appr = has 'a' a.(2);
                            n_crea = has 'c' a.(2); n_v6b = has '6' a.(2); n_a4 = aspec_of a.(3); n_a6 = aspec_of a.(4);
                            n_apd = aspec_of a.(5); n_l4 = ni (int_of_string a.(6)); n_b4 = tm a.(7);
                            n_l6 = ni (int_of_string a.(8)); n_b6 = tm a.(9) }, o4, o6, opd))
+            | "ckrel" | "ck2" -> None
             | "ck" -> Some (Ck (ni (int_of_string a.(1))))
             | "cks" -> Some (Cks (ni (int_of_string a.(1))))
             | "rel" -> Some (Rel (ni (int_of_string a.(1))))
@@ -79,6 +80,16 @@ let () =
               Some (Crash (a.(1) = "p", fail, Z0))
             | _ -> None in
           match o with
+          | None when a.(0) = "ckrel" || a.(0) = "ck2" ->
+            let i = ni (int_of_string a.(1)) in
+            (match step c !s (Ck i) with
+             | Some (s1, OCk (t, _)) ->
+               let second = if a.(0) = "ckrel" then Rel i else Ck i in
+               (match step c s1 second with
+                | Some (s2, ORel lg) -> s := s2; outs := Printf.sprintf "ckrel %s %s" (si t) (log_s lg) :: !outs
+                | Some (s2, OCk (_, lg)) -> s := s2; outs := Printf.sprintf "ck2 %s %s" (si t) (log_s lg) :: !outs
+                | _ -> outs := "MODELBUG" :: !outs)
+             | _ -> outs := "skip" :: !outs)
           | None -> outs := "badop" :: !outs
           | Some o ->
             (match step c !s o with
